@@ -5,16 +5,11 @@
   the entry for a listed code and `(code, "")` otherwise, and the `code` it carries is always the code asked for.
 -/
 import Khttp.Gen.Consts
+import Khttp.Model.Status
 import Khttp.Props.RoundTrip
 namespace Khttp.Status
 open Khttp
 open Khttp.Spec.Message (noCRLF)
-
-/-- `Status::of(code)`: the `match` generated by `define_statuses!` (first arm with that code; `""` for unlisted codes) -/
-def of (code : Nat) : Nat × Bytes :=
-  match Gen.statuses.find? (fun e => e.1 == code) with
-  | some e => e
-  | none => (code, [])
 
 /-- every listed status: a three-digit code and a non-empty reason of SP / visible ASCII (hence CR/LF-free, and accepted by
     the response parser) -/
